@@ -342,6 +342,9 @@ def dec_random(draw):
     if draw(st.integers(0, 4)):  # usually the shape agrees with the layout
         long_ = max(long_, short)
     cl = draw(A.chunks_for_axis(long_))
+    if len(cl) == 1 and long_ > 1 and draw(st.integers(0, 3)):  # keep single-chunk inputs (plain np.linalg) a small minority
+        cut = draw(st.integers(1, long_ - 1))
+        cl = draw(A.chunks_for_axis(cut)) + draw(A.chunks_for_axis(long_ - cut))
     if layout == "tall":
         shape, chunks = [long_, short], [cl, [short]]
     else:
